@@ -203,6 +203,8 @@ class CommonRD:
 
             if "base" in registration_parameters:
                 set_base = pop_single_arg(registration_parameters, "base")
+                if set_base is None:
+                    raise error.BadRequest("base must have a value")
 
             if set_lt is not None and self.lt != set_lt:
                 actual_change = True
